@@ -126,7 +126,9 @@ func needsTdx(entry string) bool {
 	return strings.HasPrefix(entry, "TdxValidate/") || strings.HasPrefix(entry, "cli/tdx-validate")
 }
 
-func usesSnpOpts(entry string) bool { return strings.HasPrefix(entry, "verify.") || strings.HasPrefix(entry, "closure/") }
+func usesSnpOpts(entry string) bool {
+	return strings.HasPrefix(entry, "verify.") || strings.HasPrefix(entry, "closure/")
+}
 
 // defaultRootOnly: the caller names no root file, so the caller's root set is what the configured
 // getter serves at the documented default root URL.
